@@ -175,7 +175,7 @@ class GeoEligibility:
 
     df = self.data  # DataFrame indexed by the geo ID.
 
-    if geos:
+    if geos is not None:
       df = df.loc[geos]
       if indices:
         df = df.reset_index()
